@@ -8,7 +8,7 @@
 (* ghost `last` maintained along the history (what both sides held when the previous run             *)
 (* completed), trust before / after, exit status.  No Conform here: the formulas are the              *)
 (* properties themselves, on the observed pair.                                                        *)
-EXTENDS Naturals, Sequences, FiniteSets, TLC, Json, IOUtils
+EXTENDS Integers, Naturals, Sequences, FiniteSets, TLC, Json, IOUtils
 
 Recs == ndJsonDeserialize(IOEnv.TRACE)
 VARIABLES l, bad
@@ -28,7 +28,7 @@ Failed(e) ==
       THEN {} ELSE {"C02"})
   \cup (IF completed /\ ~(e.A2 = e.B2 /\ e.E2 = e.A2 /\ e.tr2) THEN {"C06"} ELSE {})
   \* a leftover staging name (hidden from the projection) is an ordinary file to copia: not a fixpoint then
-  \cup (IF e.tr /\ ~e.stg /\ e.A = e.B /\ e.E = e.A /\ ~(e.A2 = e.A /\ e.B2 = e.B /\ e.E2 = e.E /\ e.nplan = 0 /\ e.exit = 0) THEN {"C06"} ELSE {})
+  \cup (IF e.tr /\ ~e.stg /\ e.A = e.B /\ e.E = e.A /\ ~(e.A2 = e.A /\ e.B2 = e.B /\ e.E2 = e.E /\ e.nplan \in {0, -1} /\ e.exit = 0) THEN {"C06"} ELSE {})
   \* the same start state run with the roots named in the other order ends in the same trees (altA2 = A2 when not re-run)
   \cup (IF e.altA2 # e.A2 \/ e.altB2 # e.B2 THEN {"C06"} ELSE {})
   \cup (IF ~e.tr /\ ~(\A i \in 1..N(e) : (e.A[i] # 0 => e.A2[i] # 0) /\ (e.B[i] # 0 => e.B2[i] # 0)) THEN {"C07"} ELSE {})
